@@ -15,7 +15,7 @@ import (
 // neither started nor cancelled; at the end (Resume, rest) every accepted job not cancelled by a purge ran exactly
 // once, and (concurrency 1, one producer) the jobs ran in acceptance order.
 
-const segOps = "ADPRX"
+const segOps = "ADPRXQ"
 
 type cd struct{ clause, detail string }
 
@@ -71,6 +71,9 @@ func runSegSeq(kp kindPair, c0, c1 int, ops string) (out []cd) {
 			case 'X':
 				q.Purge()
 				rest("after a purge")
+			case 'Q':
+				q.Close() // later submissions are rejected; what is pending still runs
+				rest("after the queue's Close")
 			}
 		}
 		if w.Wk.IsPaused() {
@@ -80,6 +83,12 @@ func runSegSeq(kp kindPair, c0, c1 int, ops string) (out []cd) {
 		type st struct{ tag, at int }
 		var got []st
 		for _, jr := range h.Jobs {
+			if !jr.Accepted {
+				if len(jr.Starts) > 0 {
+					add("C01.seq-rejected-ran", "a submission rejected by the closed queue was executed")
+				}
+				continue
+			}
 			closed := jr.St != nil && jr.St.Status() == "Closed" && len(jr.Starts) == 0
 			switch {
 			case len(jr.Starts) > 1:
@@ -122,7 +131,7 @@ func enumSegSeq(r *SeqReport, kp kindPair, c0, c1 int, alphabet string, depth in
 	seen := map[string]bool{}
 	var rec func(s string)
 	rec = func(s string) {
-		if len(s) > 0 && (s[len(s)-1] == 'D' || s[len(s)-1] == 'X' || len(s) == depth) {
+		if len(s) > 0 && (s[len(s)-1] == 'D' || s[len(s)-1] == 'X' || s[len(s)-1] == 'Q' || len(s) == depth) {
 			// (a sequence is judged when it ends in an observing operation or is maximal)
 			r.Traces++
 			r.States++
@@ -169,7 +178,7 @@ func init() {
 				enumSegSeq(r, kp, 2, 3, "AD", 10, "")
 				enumSegSeq(r, kp, 2, 3, segOps, 6, "")
 				enumSegSeq(r, kp, 1, 2, segOps, 5, "")
-				r.Notes = append(r.Notes, "every sequence over {Add, Drain} up to length 10 and over {Add, Drain, PauseAndWait, Resume, Purge} up to length 6, FIFO segment capacities (2,3) and (1,2)")
+				r.Notes = append(r.Notes, "every sequence over {Add, Drain} up to length 10 and over {Add, Drain, PauseAndWait, Resume, Purge, queue Close} up to length 6, FIFO segment capacities (2,3) and (1,2)")
 			},
 		})
 		for i := 0; i < len(segOps); i++ {
